@@ -271,6 +271,10 @@ struct cb_state
     std::atomic<int> runs{0};
 };
 static std::atomic<std::uint64_t> g_cbid{1};
+// all user callbacks of the run; their run counts are checked when the whole run has finished (every
+// target has terminated by then), not by polling the target
+static std::mutex g_cbs_mtx;
+static std::vector<std::shared_ptr<std::vector<cb_state>>> g_cbs;
 // register a user exit callback on the task `keep` refers to; the notes tell the model which callback
 // (k) is being registered / run
 static bool add_user_cb(ptd::thread_id_ref_type const& keep, int linger, std::atomic<int>* runs)
@@ -312,16 +316,8 @@ static void sc_usercb(std::uint64_t seed)
     });
     for (auto& a : adders) a->join();
     j.join();
-    // the target has finished its exit callbacks at the latest when it terminates; wait for that
-    // state through the public interface (refused add = exit callbacks ran or terminated)
-    while (add_user_cb(keep, 0, nullptr)) pika::this_thread::yield();
-    for (int i = 0; i < ncb; ++i)
-    {
-        int acc = (*cbs)[i].accepted.load(), runs = (*cbs)[i].runs.load();
-        if (acc && runs != 1)
-            monitor("usercb: an accepted exit callback ran " + std::to_string(runs) + " times");
-        if (!acc && runs != 0) monitor("usercb: a refused exit callback ran");
-    }
+    std::lock_guard<std::mutex> lk(g_cbs_mtx);
+    g_cbs.push_back(cbs);
 }
 
 // two tasks join the same handle concurrently
@@ -407,8 +403,9 @@ static void sc_interrupt(std::uint64_t seed)
                     }
                 }
             }
-            // wait to be interrupted or released
-            while (!s->give_up.load())
+            // wait to be interrupted or released (bounded: a task that keeps yielding is re-queued with
+            // boosted priority and can starve the interrupter on a scheduler without stealing)
+            for (int w = 0; w < 1500 && !s->give_up.load(); ++w)
             {
                 s->at_point.store(1);
                 iyield();
@@ -481,8 +478,10 @@ static void sc_jthread(std::uint64_t seed)
             else if (mode == 1)
             {
                 // runs until asked to stop
-                while (!tok.stop_requested()) pika::this_thread::yield();
-                saw_stop->store(1);
+                // (bounded for the same starvation reason as in sc_interrupt)
+                int w = 0;
+                while (!tok.stop_requested() && ++w < 3000) pika::this_thread::yield();
+                saw_stop->store(tok.stop_requested() ? 1 : 2);
             }
             else
             {
@@ -585,6 +584,7 @@ int main(int argc, char** argv)
     int size = std::atoi(argv[4]);
     g_noexcept_yield = prog == "yieldintr";
     e2::g_wanted = &want;
+    e2::g_max_records = 400000;    // a bounded program cannot produce more: beyond that = livelock
     e2::install(seed, perturb);
 
     std::vector<char const*> av{argv[0]};
@@ -656,6 +656,14 @@ int main(int argc, char** argv)
         }
     }
     e2::g_enabled.store(false);
+    for (auto const& cbs : g_cbs)
+        for (auto const& c : *cbs)
+        {
+            int acc = c.accepted.load(), runs = c.runs.load();
+            if (acc && runs != 1 && !(hang && runs == 0))
+                monitor("usercb: an accepted exit callback ran " + std::to_string(runs) + " times");
+            if (!acc && runs != 0) monitor("usercb: a refused exit callback ran");
+        }
     if (hang) monitor("hang: the runtime is quiescent but " + std::to_string(g_total.load() - g_done.load()) + " activities never finished (a join or jthread destructor did not return)");
     std::printf("case e2 prog=%s seed=%llu size=%d\n", prog.c_str(), (unsigned long long) seed, size);
     dump_join(stdout);
